@@ -41,7 +41,7 @@ def main():
                 continue
             entry = {}
             for s in seeds:
-                env = dict(os.environ, PYTHONPATH=wt, VERIF_REPO=wt, VERIF_SEED=str(s))
+                env = dict(os.environ, PYTHONPATH=wt, VERIF_REPO=wt, VERIF_EVIDENCE_DIR="/tmp/sv/evidence", VERIF_SEED=str(s))
                 rc, o = sh([os.path.join(VERIF, "vcheck"), prop], cwd=VERIF, env=env)
                 lines = [l for l in o.split("\n") if l.startswith("VIOLATION")]
                 entry[str(s)] = {"exit": rc, "concrete": any("no-failing-input-found" not in l for l in lines), "n": len(lines)}
